@@ -95,10 +95,10 @@ type PointRec struct {
 	Enabled   []int // alternatives in canonical order (thread ids; a thread may appear several times for data choices)
 	Variant   []int // variant number for each alternative (select case / data choice)
 	Chosen    int
-	Running   int  // thread that was running before the point (-1 none)
-	RunningOK bool // the running thread is among the enabled alternatives
-	FreeYield bool // switching away here is not a preemption (fair yield / the running thread blocked or exited)
-	NEvents   int  // number of events logged before this point
+	Running   int   // thread that was running before the point (-1 none)
+	RunningOK bool  // the running thread is among the enabled alternatives
+	FreeYield bool  // switching away here is not a preemption (fair yield / the running thread blocked or exited)
+	NEvents   int   // number of events logged before this point
 	RunKind   Kind  // pending operation of the running thread (valid when RunningOK)
 	Extra     []int // extra deviation cost of each alternative (an unfair choice, e.g. a timer firing although another case of the select is ready)
 }
@@ -121,11 +121,15 @@ type Exec struct {
 	Deadlock bool
 	Cut      bool // horizon reached
 	Diverged string
-	Panic    string // a thread of the execution panicked (a finding about the code, not about the harness)
-	atomics  map[any]int64
-	Sigs     map[uint64]bool
-	owner    map[any]int // first thread that operated on an object
-	nShared  int         // objects operated on by more than one thread
+	// Stuck names a thread that ran for StepTimeout of wall-clock time without reaching any scheduling point: it loops
+	// without synchronising with anybody (for C09: it never looks at the abort flag). The thread cannot be stopped; the
+	// execution is abandoned as it is and the process should exit after reporting.
+	Stuck   string
+	Panic   string // a thread of the execution panicked (a finding about the code, not about the harness)
+	atomics map[any]int64
+	Sigs    map[uint64]bool
+	owner   map[any]int // first thread that operated on an object
+	nShared int         // objects operated on by more than one thread
 }
 
 // SharedObjects returns the number of synchronisation objects that more than one thread operated on.
@@ -425,8 +429,8 @@ type Config struct {
 	Coarse    bool
 	FineBound int
 	Quantum   int // consecutive polls of one thread before a free yield
-	Horizon int // maximum number of points of one execution
-	Stop    func(e *Exec) bool
+	Horizon   int // maximum number of points of one execution
+	Stop      func(e *Exec) bool
 }
 
 func (e *Exec) enabled(t *thread) []int {
@@ -638,7 +642,12 @@ func Run(cfg Config, prefix []int, body func()) *Exec {
 		running = a.tid
 		e.current = t
 		t.wake <- a.variant
-		<-e.toSched
+		select {
+		case <-e.toSched:
+		case <-time.After(StepTimeout):
+			e.Stuck = t.name
+			return e
+		}
 		e.current = nil
 	}
 	// teardown: unwind the unfinished threads one at a time; no shim operation blocks any more, the abort
@@ -661,6 +670,10 @@ func Run(cfg Config, prefix []int, body func()) *Exec {
 	}
 	return e
 }
+
+// StepTimeout bounds the wall-clock time a thread may run between two scheduling points (they are microseconds apart
+// in the code under test; see Exec.Stuck).
+var StepTimeout = 30 * time.Second
 
 // Trace renders the events of an execution.
 func (e *Exec) Trace() string {
